@@ -46,7 +46,7 @@ INVARIANTS = ['TypeOK', 'ReadProgress', 'Outcome', 'FoldAgrees', 'NoEscape', 'No
               'NoFetch', 'RejectIsNoop', 'ValidatedFirst', 'HandledOnlyIfAdmissible', 'AcceptOnlyHandled']
 FIELDS = ('via', 'method', 'target', 'path', 'framing', 'coding', 'xml', 'envelope')
 TLC_FIELDS = ('status', 'body', 'escaped', 'spin', 'timeout', 'unbounded_read', 'expanded', 'resolver_calls',
-              'socket_attempts', 'state_same', 'handled', 'validated')
+              'socket_attempts', 'state_same', 'handled', 'validated', 'extra_response')
 
 
 # --------------------------------------------------------------------------------------------- TLC side
